@@ -5,6 +5,17 @@ HOOK_COMMITS = ["80fcbe6"]
 TODO = "check not built yet in this round; design in DESIGN.md section 5 (to be claimed when the TLA+ module and harness exist)"
 
 CLAIMS = {
+    "C13": {
+        "text": "TLA+ grammar of the configuration space (ConfigSpaceGrammar: per kind, records over value classes plus the validation rules the repository states) and life-cycle automaton "
+                "Validate->{rejected,accepted}->Create->Init->Handle*->Inherit->Handle*->Close with a panic possible at every call (ConfigSpace), model-checked (contract: NoPanicAfterAccept, "
+                "RuleRejected, protocol properties; world: panic after acceptance reachable at every call). TLC enumerates the grammar (exhaustive Hamming balls around a working base configuration "
+                "per kind, random deeper members); the Go harness renders each configuration to YAML, passes it through the admin API's validation (Supervisor.NewSpec / resilience.NewPolicy) and "
+                "drives accepted ones through the real object's life-cycle under recover(), logging every call; TLC validates every recorded life-cycle against the automaton with "
+                "NoPanicAfterAccept and RuleRejected evaluated on each observed state; violations are minimised to kind + field classes + call + top repository frame.",
+        "note": "one concrete value per class; request classes fixed (10 HTTP, 6 server, 2 MQTT, 4 policy); mocked cluster, local backends; KafkaMQTT/Kafka/RemoteFilter/CertExtractor validate-only; "
+                "WasmHost, MQTT-session filters, registries, ACME, mesh, tracing, HTTP/3 out of scope; 'does not panic' is observed (recover / process crash attributed to the call in flight), not predicted",
+        "technique": "TLA+ spec + TLC model checking; TLC as combinatorial generator (-dump / -simulate) of configurations driven on the real code; TLC trace validation of recorded life-cycles",
+    },
     "C03": {
         "text": "TLA+ model of one HTTP exchange (specs/ProxyMsg*.tla): the contract is one predicate per clause of the property (percent-decoding and Go's URL escaping "
                 "modelled on byte sequences); an implementation-shaped layer has one operator per stage mux -> RequestAdaptor -> prepareRequest/cloneHeader -> transport -> "
